@@ -24,6 +24,10 @@ CHECKS = {
             "runtime monitor: one corruption at a time predicted from the independently decoded block map, compared with error:/parity_error: log tags, exit status and bad marks (status -G + decoded info words); negative control on the undamaged array first",
             "Every block of every file and every parity block of small arrays (sampled above 40 per array in quick), 5 corruption shapes, swaps, combinations within and across stripes, for check, check -a and scrub plans full/new/100%/bad; the predicted set of (position, disk, file, file position) and (position, level) must equal the reported set, the status must fail, and scrub must mark exactly the affected stripes.",
             "Arrays are sampled; reduced hash sizes and hash migration are in the configuration space. Collisions under truncated hashes are screened with the frozen reference hash and counted trivial. Strategy log lines (parity_error:...:hash) are not treated as location claims."),
+    "C05": ("exploration",
+            "runtime monitor with a harness-owned version store: content file decoded before fix, data dirs snapshot before/after, fix tags and exit status; every recorded file must hold the recorded version's bytes or be reported unrecoverable; violations are keyed by a diagnosis of the witness block (state, recorded hash vs frozen-reference hash of new / old occupant bytes)",
+            "Histories with complete, partial (-S/-B), killed-after-parity syncs, stripes skipped because a file of the stripe is rewritten/removed/touched between scan and sync (--test-run), copy-detected files, and files replaced at the same position (the shape of the hand-found defects); then detectable damage on 0..nd+np devices; then fix with and without -f/-d/-m/-e. Oracle: never wrong bytes under a recorded name unless reported, never status:recovered with other bytes, nothing unknown to the content file or outside -d written, exit status reflects unrecoverable reports.",
+            "Only detectable damage; hash size 16. Files fix did not touch are not attributed to fix. Open findings F5 and F21 (heuristics for never-synced CHG blocks) are reported as KNOWN-FINDING by mechanism key."),
     "C06": ("exploration",
             "runtime monitor: independent content-file decoder + GF(2^8) parity oracle over a harness-owned version store, applied after every command of random histories (plain and ASan/UBSan builds)",
             "After every single command of random histories (syncs of all kinds incl. partial, forced, pre-hash, autosave, kill-after-sync; scrub; fix after random damage; rehash; touch; disk removal/addition leaving position holes) each on-disk content file is decoded independently, the block-map invariants are asserted and every stripe whose blocks are all recorded synced is recomputed from the version store and compared with the parity files at the offset given by the recorded split sizes. This is the right level because the property is a state invariant quantified over histories: an oracle after each step over thousands of sampled histories observes exactly the state the property talks about.",
@@ -76,6 +80,10 @@ CHECKS = {
             "runtime monitor with a reference model of the documented rules (independent glob matcher): direct calls of the real filter functions through a harness linked with the current objects, plus process-level sync/list and fix-under-filter runs compared with the model and with snapshots",
             "Random rule lists (include/exclude, file and directory forms, rooted and unrooted, *, ?, [], [!], escapes) x random paths: ~10^5 (quick) direct evaluations of filter_path/filter_subdir/filter_emptydir against the model; random rule lists x trees synced and listed; fix with -f/-d/-m on damaged arrays must write exactly the selected missing files with the right bytes.",
             "Pattern grammar restricted to forms whose meaning is unambiguous in POSIX and the manual. Empty directories produced by filtering are not judged. Open finding F20 (directory pruning vs 'first match decides') is reported as KNOWN-FINDING."),
+    "C19": ("exploration",
+            "runtime monitor: decoy files (same name/path, size, time-stamp, other bytes) for copy detection, import directories and duplicate search; after each command every block recorded synced must carry the frozen-reference hash of the bytes the harness wrote, the parity oracle must hold, and fix may only produce recorded versions",
+            "Decoys on the same and other disks with zero and non-zero sub-second stamps, true moves within and across disks, true copies and decoys in -i / --test-import-content directories and as unsynced duplicates in the array, with -h, --force-nocopy and provisional hashes carried over --test-kill-after-sync. A sync that matched a decoy must fail (with -h: no parity byte changes) and must never record a foreign hash; later syncs converge; fix never writes decoy bytes.",
+            "Whether copy detection picks a decoy depends on scan order; evidence counts how many were actually matched. Hash size 16."),
     "C20": ("exploration",
             "runtime monitor: every derived view (list tags and stdout, dup, status, pool tree) compared with the independently decoded content file and the harness's byte-level model; escaping inverted; per-tag line counts as a forged-line detector",
             "Arrays with hostile and tag-lookalike names, duplicate groups across disks, zero sub-second stamps, pre-existing pool contents, with and without a share prefix. list/dup/status log tags and stdout are parsed back (esc_tag / shell escaping inverted) and must give exactly the recorded names, sizes, links; dup pairs must induce the content-equality partition; the pool dir must hold exactly one resolving link per recorded name with stale links and empty dirs gone and foreign files kept.",
